@@ -63,6 +63,27 @@ JCCNear(r) ==
                    AbsC(g.on0) <= 64 /\ AbsC(g.on1) <= 64 /\ AbsC(g.perp0) <= 64 /\ AbsC(g.perp1) <= 64 /\ AbsC(g.same) <= 64)
             /\ Clause(i, "C11.outer.order", o.segs[1].side > 0 /\ o.segs[2].side < 0)
 
+\* tangent points from a point d/r = 1e3 .. 1e8 radii away (derived observations, unit 2^-30): both exist, lie on the circle, the
+\* tangent is perpendicular to the radius, left one first
+JTanFar(r) ==
+    LET o == r.out IN
+    /\ Clause(i, "C11.tangent.panic", Sub(o))
+    /\ Sub(o) =>
+        /\ Clause(i, "C11.tangent.some", o.some /\ Len(o.pts) = 2)
+        /\ (o.some /\ Len(o.pts) = 2) =>
+            /\ Clause(i, "C11.tangent.finite", o.finite)
+            /\ Clause(i, "C11.tangent.far_point_on_circle_and_perpendicular", \A k \in 1..2 : AbsC(o.pts[k].on) <= 64 /\ AbsC(o.pts[k].perp) <= 64)
+            /\ Clause(i, "C11.tangent.far_order", o.pts[1].side * o.pts[2].side < 0)
+\* three points that turn by an angle whose sine is at least 1e-4 (the generator guarantees it; the library's own collinearity threshold is
+\* 1e-6): a circle exists, passes through them (relative residuals), and the arc starts and ends on the outer two
+JArc3Far(r) ==
+    LET o == r.out IN
+    /\ Clause(i, "C11.arc3.panic", Sub(o.circ) /\ Sub(o.arc))
+    /\ (Sub(o.circ) /\ Sub(o.arc)) =>
+        /\ Clause(i, "C11.arc3.gently_curved_triple_accepted", o.circ.ok)
+        /\ o.circ.ok => Clause(i, "C11.arc3.gently_curved_triple_on_circle", o.circ.finite /\ \A k \in 1..3 : AbsC(o.circ.res[k]) <= 64)
+        /\ Clause(i, "C11.arc3.gently_curved_ends", o.arc.finite /\ AbsC(o.arc.start) <= 64 /\ AbsC(o.arc.end) <= 64)
+
 \* circle centred on the origin (radius R), segment on the line y = lvl from x = -far (hundreds of millions of units away)
 \* to x = xe: the crossings are (-h, lvl) and (h, lvl) with h^2 = R^2 - lvl^2 (h is given and verified), as far as they lie
 \* on the segment; a tangent line touches at (0, lvl)
@@ -219,6 +240,8 @@ Judge(r) ==
         CASE r.op = "cc"    -> JCC(r)
           [] r.op = "ccnear" -> JCCNear(r)
           [] r.op = "tan"   -> JTan(r)
+          [] r.op = "tanfar" -> JTanFar(r)
+          [] r.op = "arc3far" -> JArc3Far(r)
           [] r.op = "seg"   -> JSeg(r)
           [] r.op = "segfar" -> JSegFar(r)
           [] r.op = "curve" -> JCurve(r)
